@@ -301,7 +301,7 @@ def func_slices(mod, qualname: str):
 
 
 def main() -> int:
-    sys.path.insert(0, "/repo")
+    sys.path.insert(0, os.environ.get("VERIF_REPO", "/repo"))
     w = Writer()
     w.raw("/- GENERATED by harness/extract.py from /repo on every run. Do not edit. -/")
     w.raw("import Hv.Prim.Layout")
